@@ -18,6 +18,15 @@ and its expression is a literal or a name `q` that exists, with different values
 hierarchy (so the scope in which it is resolved shows).  The reference flattener (vf.ref.flat) gives the
 winner and its scope-resolved expression; a program is either rejected by pymoca (an exception) or its
 flat model equals the reference in every variable, attribute and equation.
+
+Two families of programs:
+
+* single item: every present level modifies the same item (competition for one winner);
+* several items: the present levels modify DIFFERENT items of the same element (value / attribute /
+  another attribute) or an item of a sibling element `y` declared next to `x`, one item per level.  Here a
+  level that loses nothing must also lose nothing: what an outer level says about one item must not disturb
+  what an inner level said about another (the inner level's value, and the scope of its expression, stay
+  visible because the outer level does not override it).
 """
 import itertools
 
@@ -29,6 +38,8 @@ from vf.ref.mast import B, N, V
 LEVEL = "exploration"
 
 ATTRS = ["value", "start", "min", "max", "nominal", "fixed", "unit"]
+# items of the sibling element y (declared next to x in the same class)
+SIBLING = ["y.value", "y.start", "y.min", "y.max", "y.nominal", "y.fixed", "y.unit"]
 QVAL = {"Leaf": 101, "Holder": 102, "Base": 103, "Top": 104, "Outer": 105}
 
 
@@ -36,7 +47,22 @@ def level_names(depth):
     return ["T", "D"] + ["W%d" % i for i in range(depth - 1)] + ["E0", "E", "C", "O"]
 
 
+def elem_attr(item):
+    """simple item -> (element name, attribute)."""
+    if item.startswith("y."):
+        return "y", item[2:]
+    return "x", item
+
+
+def parts(item):
+    """An item is simple ("start", "value", "y.min") or joint: two items of x carried by ONE level, written as
+    separate arguments ("start+min": x(start = 1), x(min = 2) / x.start = 1, x.min = 2) or as one node
+    ("start&min": x(start = 1, min = 2); "value&start": x(start = 1) = 2)."""
+    return item.replace("&", "+").split("+")
+
+
 def literal(attr, k):
+    attr = elem_attr(attr)[1]
     if attr == "fixed":
         return ("bool", k % 2 == 0)
     if attr == "unit":
@@ -44,104 +70,179 @@ def literal(attr, k):
     return N(10 + k)
 
 
-def build(attr, depth, present, named, shadow=False, tchain=False):
-    """present: set of level names; named: the level whose expression is the name q (or None).
-    Returns (Lib, target class, list of (level, Mod owner list, index) for spelling control)."""
-    names = level_names(depth)
+def nameable(item):
+    return any(elem_attr(p)[1] not in ("fixed", "unit") for p in parts(item))
 
-    def val(lv):
-        if lv == named:
+
+def item_kind(item):
+    out = []
+    for p in parts(item):
+        e, a = elem_attr(p)
+        out.append(("sibling-" if e == "y" else "") + ("value" if a == "value" else "attribute"))
+    return ("&" if "&" in item else "+").join(out)
+
+
+def build(attr, depth, present, named, shadow=False, tchain=False, items=None):
+    """present: set of level names; named: the level whose expression is the name q (or None); items: None (every
+    level modifies `attr`) or dict level -> item modified by that level.  Returns (Lib, target class)."""
+    names = level_names(depth)
+    items = items or {}
+
+    def item_of(lv):
+        return items.get(lv, attr)
+
+    def val(lv, part=None):
+        part = part or item_of(lv)
+        if lv == named and nameable(part):
             return V("q")
-        return literal(attr, names.index(lv))
+        return literal(part, names.index(lv))
 
     def mk(path, lv):
-        """Modification of the element reached by `path` (list of component names ending in x)."""
-        if attr == "value":
-            return mod_path(path, val(lv))
-        return mod_path(path + [attr], val(lv))
+        """Modifications (a list of arguments) of the element reached by `path` (component names ending in x)."""
+        it = item_of(lv)
+        if "&" in it:
+            node = Mod("x")
+            for p in parts(it):
+                if p == "value":
+                    node.value = val(lv, p)
+                else:
+                    node.subs.append(Mod(p, val(lv, p)))
+            for n in reversed(path[:-1]):
+                node = Mod(n, None, [node])
+            return [node]
+        out = []
+        for p in parts(it):
+            e, a = elem_attr(p)
+            pp = path[:-1] + [e]
+            out.append(mod_path(pp if a == "value" else pp + [a], val(lv, p)))
+        return out
 
+    used = [p for lv in names if lv in present for p in parts(item_of(lv))] or [attr]
     classes = []
     xtype = "Real"
-    if "T" in present and attr != "value":
+    if "T" in present and item_of("T") != "value":
+        tmods = [Mod(p, val("T", p)) for p in parts(item_of("T"))]
         if tchain:
             # alias of an alias: the modification sits on the inner type definition
-            classes.append(Cls("TT0", kind="type", base="Real", mods=[Mod(attr, val("T"))]))
+            classes.append(Cls("TT0", kind="type", base="Real", mods=tmods))
             classes.append(Cls("TT", kind="type", base="TT0"))
         else:
-            classes.append(Cls("TT", kind="type", base="Real", mods=[Mod(attr, val("T"))]))
+            classes.append(Cls("TT", kind="type", base="Real", mods=tmods))
         xtype = "TT"
-    # the class that declares x
-    x = Comp("x", xtype, prefixes=("parameter",) if attr == "value" else ())
+    # the class that declares x (and, when an item of the sibling is modified, y)
+    x = Comp("x", xtype, prefixes=("parameter",) if "value" in used else ())
+    decl = [x]
+    if any(it.startswith("y.") for it in used):
+        decl.append(Comp("y", "Real", prefixes=("parameter",) if "y.value" in used else ()))
     if "D" in present:
-        if attr == "value":
-            x.value = val("D")
-        else:
-            x.mods = [Mod(attr, val("D"))]
+        for p in parts(item_of("D")):
+            e, a = elem_attr(p)
+            d = decl[0] if e == "x" else decl[1]
+            if a == "value":
+                d.value = val("D", p)
+            else:
+                d.mods.append(Mod(a, val("D", p)))
     q = lambda cname: Comp("q", prefixes=("parameter",), value=N(QVAL[cname]))  # noqa: E731
     path = ["x"]
     if depth == 1:
-        base = Cls("Base", comps=[x, q("Base")])
+        base = Cls("Base", comps=decl + [q("Base")])
     else:
-        classes.append(Cls("Leaf", comps=[x, q("Leaf")]))
-        l = Comp("l", "Leaf", mods=[mk(["x"], "W0")] if "W0" in present else [])
+        classes.append(Cls("Leaf", comps=decl + [q("Leaf")]))
+        l = Comp("l", "Leaf", mods=mk(["x"], "W0") if "W0" in present else [])
         if depth == 2:
             base = Cls("Base", comps=[l, q("Base")])
             path = ["l", "x"]
         else:
             classes.append(Cls("Holder", comps=[l, q("Holder")]))
-            h = Comp("h", "Holder", mods=[mk(["l", "x"], "W1")] if "W1" in present else [])
+            h = Comp("h", "Holder", mods=mk(["l", "x"], "W1") if "W1" in present else [])
             base = Cls("Base", comps=[h, q("Base")])
             path = ["h", "l", "x"]
     if "E0" in present:
         # a second extends level below E: Base itself inherits the element from Root and modifies it
         root = Cls("Root", comps=[c for c in base.comps if c.name != "q"])
         classes.append(root)
-        base = Cls("Base", exts=[Ext("Root", [mk(path, "E0")])], comps=[q("Base")])
+        base = Cls("Base", exts=[Ext("Root", mk(path, "E0"))], comps=[q("Base")])
     classes.append(base)
     if shadow:
         # the class of component m has the same short name as the class that instantiates it (Lib.Top in Top):
         # a scope must be identified by the class, not by its short name
-        mid = Cls("Top", exts=[Ext("Base", [mk(path, "E")] if "E" in present else [])])
+        mid = Cls("Top", exts=[Ext("Base", mk(path, "E") if "E" in present else [])])
         classes.append(Cls("Lib", kind="package", classes=[mid]))
         mtype = "Lib.Top"
     else:
-        mid = Cls("Mid", exts=[Ext("Base", [mk(path, "E")] if "E" in present else [])])
+        mid = Cls("Mid", exts=[Ext("Base", mk(path, "E") if "E" in present else [])])
         classes.append(mid)
         mtype = "Mid"
-    top = Cls("Top", comps=[Comp("m", mtype, mods=[mk(path, "C")] if "C" in present else []), q("Top")])
+    top = Cls("Top", comps=[Comp("m", mtype, mods=mk(path, "C") if "C" in present else []), q("Top")])
     classes.append(top)
-    outer = Cls("Outer", comps=[Comp("t", "Top", mods=[mk(["m"] + path, "O")] if "O" in present else []), q("Outer")])
+    outer = Cls("Outer", comps=[Comp("t", "Top", mods=mk(["m"] + path, "O") if "O" in present else []), q("Outer")])
     classes.append(outer)
     return Lib(classes), "Outer"
 
 
-def count_links(lib):
-    sp = Spelling()
-    lib.text(sp)
-    return sp.links
+def unpack(job):
+    """(attr, depth, present, named, flips, shadow, tchain, items) with defaults for short job tuples."""
+    attr, depth, present, named, flips = job[:5]
+    shadow = bool(job[5]) if len(job) > 5 else False
+    tchain = bool(job[6]) if len(job) > 6 else False
+    items = tuple(job[7]) if len(job) > 7 and job[7] else ()
+    return attr, depth, tuple(present), named, tuple(flips), shadow, tchain, items
 
 
-def link_levels(lib_builder_args):
-    """For each spelling link index (print order), which level it belongs to."""
-    attr, depth, present, named = lib_builder_args
+def items_dict(present, items):
+    return dict(zip(present, items)) if items else None
+
+
+def links(attr, depth, present, items=None):
+    """For each spelling link index (print order): (level, is it the link that joins an element to its attribute).
+    Print order follows class order: T (0 links), D (0), W0.., E0, E, C, O; every argument of a level has (length of
+    its dotted path - 1) links; a joint node x(start = .., min = ..) ends at x."""
+    items = items or {}
     out = []
-    # print order follows class order: T (0 links), D (0), W0.., E, C, O; links per level = path length - 1
-    names = level_names(depth)
-    plen = {"T": 1, "D": 1}
-    for i in range(depth - 1):
-        plen["W%d" % i] = (i + 1) + (0 if attr == "value" else 1)
-    plen["E"] = depth + (0 if attr == "value" else 1)
-    plen["E0"] = plen["E"]
-    plen["C"] = plen["E"]
-    plen["O"] = plen["E"] + 1
-    for lv in names:
+    for lv in level_names(depth):
         if lv in present and lv not in ("T", "D"):
-            out += [lv] * (plen[lv] - 1)
+            n = int(lv[1:]) + 1 if lv.startswith("W") else depth + 1 if lv == "O" else depth
+            it = items.get(lv, attr)
+            if "&" in it:
+                out += [(lv, False)] * (n - 1)
+                continue
+            for p in parts(it):
+                out += [(lv, False)] * (n - 1)
+                if elem_attr(p)[1] != "value":
+                    out.append((lv, True))
     return out
 
 
+def link_levels(attr, depth, present, items=None):
+    return [lv for lv, _ in links(attr, depth, present, items)]
+
+
+def attribute_links(attr, depth, present, items=None):
+    """Indices of the links that join an element to its attribute (x.start / x(start ..))."""
+    return [i for i, (_, a) in enumerate(links(attr, depth, present, items)) if a]
+
+
+def flipsets(lv_of_link, names, maxflip_levels):
+    """Every set of flipped links that touches <= maxflip_levels levels (any non-empty subset of the links of each)."""
+    n = len(lv_of_link)
+    lvs = sorted(set(lv_of_link), key=names.index)
+    out = {()}
+    for k in range(1, maxflip_levels + 1):
+        for chosen in itertools.combinations(lvs, k):
+            idx = [[i for i in range(n) if lv_of_link[i] == lv] for lv in chosen]
+            per = []
+            for ix in idx:
+                subs = []
+                for m in range(1, len(ix) + 1):
+                    subs += list(itertools.combinations(ix, m))
+                per.append(subs)
+            for combo in itertools.product(*per):
+                out.add(tuple(sorted(i for c in combo for i in c)))
+    return sorted(out)
+
+
 def programs(tier):
-    """Yield job tuples (attr, depth, present levels, named level, flips)."""
+    """Single-item family: job tuples (attr, depth, present levels, named level, flips[, shadow[, alias chain]])."""
     jobs = []
     depths = (1, 2) if tier == "quick" else (1, 2, 3)
     for attr in ATTRS:
@@ -160,78 +261,189 @@ def programs(tier):
                     for named in nameds:
                         if "E0" in present and named is not None and named.startswith("W"):
                             continue  # the wrapper components then live in Root, which declares no q
-                        args = (attr, depth, frozenset(present), named)
-                        lv_of_link = link_levels(args)
-                        n = len(lv_of_link)
-                        lvs = sorted(set(lv_of_link), key=names.index)
-                        flipsets = {()}
-                        for k in range(1, maxflip_levels + 1):
-                            for chosen in itertools.combinations(lvs, k):
-                                idx = [[i for i in range(n) if lv_of_link[i] == lv] for lv in chosen]
-                                # every non-empty subset of the links of each chosen level
-                                per = []
-                                for ix in idx:
-                                    subs = []
-                                    for m in range(1, len(ix) + 1):
-                                        subs += list(itertools.combinations(ix, m))
-                                    per.append(subs)
-                                for combo in itertools.product(*per):
-                                    flipsets.add(tuple(sorted(i for c in combo for i in c)))
-                        for fl in sorted(flipsets):
-                            jobs.append((attr, depth, tuple(sorted(present, key=names.index)), named, fl, False))
+                        lv_of_link = link_levels(attr, depth, frozenset(present))
+                        pres = tuple(sorted(present, key=names.index))
+                        for fl in flipsets(lv_of_link, names, maxflip_levels):
+                            jobs.append((attr, depth, pres, named, fl, False))
                         if "T" in present and attr != "value":
                             # the element's type is an alias of an alias
-                            jobs.append((attr, depth, tuple(sorted(present, key=names.index)), named, (), False, True))
+                            jobs.append((attr, depth, pres, named, (), False, True))
                         if named in ("C", "O", "E", "E0"):
                             # same hierarchy with the class of m named like the class that contains m
-                            jobs.append((attr, depth, tuple(sorted(present, key=names.index)), named, (), True))
+                            jobs.append((attr, depth, pres, named, (), True))
+    return jobs
+
+
+def item_pairs(tier):
+    """Ordered pairs (item of the inner level, item of the outer level), different items."""
+    a = ATTRS[1:]
+    if tier == "quick":
+        # every pair with the value on one side; attribute pairs: each attribute with its cyclic successor;
+        # the sibling's item of the same kind outside, for the value and for one attribute
+        pairs = [("value", x) for x in a] + [(x, "value") for x in a]
+        pairs += [(a[i], a[(i + 1) % len(a)]) for i in range(len(a))]
+        pairs += [("value", "y.value"), ("start", "y.start")]
+    else:
+        pairs = [(x, y) for x in ATTRS for y in ATTRS if x != y]
+        pairs += [(x, "y." + y) for x in ATTRS for y in ATTRS]
+        pairs += [("y." + x, x) for x in ATTRS]
+    return pairs
+
+
+def can_carry(lv, item):
+    if lv == "T":
+        return item != "value" and not item.startswith("y.")
+    return True
+
+
+def multi_programs(tier):
+    """Several-items family: the present levels modify different items of x (or an item of the sibling y), one
+    item per level.  Job tuples (inner item, depth, present, named, flips, False, False, items per present level)."""
+    jobs = []
+    depths = (1, 2) if tier == "quick" else (1, 2, 3)
+    for depth in depths:
+        names = level_names(depth)
+        # two levels, two items
+        for present in itertools.combinations(names, 2):
+            for pair in item_pairs(tier):
+                if not all(can_carry(lv, it) for lv, it in zip(present, pair)):
+                    continue
+                jobs += _variants(tier, depth, names, present, pair)
+        # thorough: three levels, two items of x, every assignment that uses both
+        if tier != "quick" and depth < 3:
+            for present in itertools.combinations(names, 3):
+                for a, b in itertools.combinations(ATTRS, 2):
+                    for assign in itertools.product((a, b), repeat=3):
+                        if len(set(assign)) < 2 or not all(can_carry(lv, it) for lv, it in zip(present, assign)):
+                            continue
+                        jobs += _variants("quick", depth, names, present, assign)
+    return jobs
+
+
+def _variants(tier, depth, names, present, items):
+    """quick: the base program (literals, default spelling) and one deviation of it -- the name q at one level, or the
+    attribute link of one level spelled the other way; thorough: every named level (or none) x every spelling of the
+    links of <= 2 levels."""
+    idict = dict(zip(present, items))
+    nameds = [None] + [lv for lv in present if lv != "T" and nameable(idict[lv]) and not ("E0" in present and lv.startswith("W"))]
+    out = []
+    if tier == "quick":
+        for named in nameds:
+            out.append((items[0], depth, present, named, (), False, False, items))
+        for i in attribute_links(items[0], depth, present, idict):
+            out.append((items[0], depth, present, None, (i,), False, False, items))
+    else:
+        fls = flipsets(link_levels(items[0], depth, present, idict), names, 2 if depth < 3 else 1)
+        for named in nameds:
+            for fl in fls:
+                out.append((items[0], depth, present, named, fl, False, False, items))
+    return out
+
+
+def joint_pairs(tier):
+    a = ATTRS[1:]
+    if tier == "quick":
+        return [("value", x) for x in a] + [(a[i], a[(i + 1) % len(a)]) for i in range(len(a))]
+    return list(itertools.combinations(ATTRS, 2))
+
+
+def joint_forms(lv, pair):
+    """The ways one level can carry two items of x: the declaration and the type definition have one; a modification
+    writes one node x(start = .., min = ..) or, for two attributes, two arguments x(start = ..), x(min = ..)."""
+    if lv in ("T", "D"):
+        return ["%s+%s" % pair]
+    return ["%s&%s" % pair] + (["%s+%s" % pair] if "value" not in pair else [])
+
+
+def joint_programs(tier):
+    """Joint family: one level carries two items of x at once.  quick: that level alone, its expressions the name q
+    where possible, default spelling and (two arguments) both attribute links dotted; thorough: additionally q
+    nowhere, every spelling of its links, and a second level that carries one of the two items."""
+    jobs = []
+    depths = (1, 2) if tier == "quick" else (1, 2, 3)
+    for depth in depths:
+        names = level_names(depth)
+        for lv in names:
+            for pair in joint_pairs(tier):
+                if lv == "T" and "value" in pair:
+                    continue
+                for form in joint_forms(lv, pair):
+                    present, items = (lv,), (form,)
+                    idict = {lv: form}
+                    canname = lv != "T" and nameable(form)
+                    al = tuple(attribute_links(pair[0], depth, present, idict))
+                    if tier == "quick":
+                        named = lv if canname else None
+                        jobs.append((pair[0], depth, present, named, (), False, False, items))
+                        if al:
+                            jobs.append((pair[0], depth, present, named, al, False, False, items))
+                        continue
+                    for named in [None] + ([lv] if canname else []):
+                        for fl in flipsets(link_levels(pair[0], depth, present, idict), names, 1):
+                            jobs.append((pair[0], depth, present, named, fl, False, False, items))
+                    if depth == 3:
+                        continue
+                    for other in names:
+                        if other == lv:
+                            continue
+                        for it in pair:
+                            if not can_carry(other, it):
+                                continue
+                            pres = tuple(sorted((lv, other), key=names.index))
+                            its = tuple(form if x == lv else it for x in pres)
+                            jobs += _variants("quick", depth, names, pres, its)
     return jobs
 
 
 def spelling_kind(job):
     """Class of the spelling for signatures: per flipped link whether it is an attribute link."""
-    attr, depth, present, named, flips = job[:5]
+    attr, depth, present, named, flips, shadow, tchain, items = unpack(job)
     if not flips:
-        return "default-spelling" + (":same-short-class-name" if len(job) > 5 and job[5] else "") + (":alias-of-alias" if len(job) > 6 and job[6] else "")
-    lv_of_link = link_levels((attr, depth, frozenset(present), named))
+        return "default-spelling" + (":same-short-class-name" if shadow else "") + (":alias-of-alias" if tchain else "")
+    alinks = set(attribute_links(attr, depth, present, items_dict(present, items)))
     kinds = set()
-    # the last link of a level's path is the attribute link (for attribute modifications)
     for i in flips:
-        lv = lv_of_link[i]
-        last = i + 1 >= len(lv_of_link) or lv_of_link[i + 1] != lv
-        if last and attr != "value":
-            kinds.add("dotted-attribute")
-        else:
-            kinds.add("nested-component")
+        kinds.add("dotted-attribute" if i in alinks else "nested-component")
     return "+".join(sorted(kinds))
 
 
 def check(job):
-    attr, depth, present, named, flips = job[:5]
-    shadow = bool(job[5]) if len(job) > 5 else False
-    tchain = bool(job[6]) if len(job) > 6 else False
-    lib, target = build(attr, depth, frozenset(present), named, shadow, tchain)
+    attr, depth, present, named, flips, shadow, tchain, items = unpack(job)
+    idict = items_dict(present, items)
+    lib, target = build(attr, depth, frozenset(present), named, shadow, tchain, idict)
     text = lib.text(Spelling(flips=flips))
-    case = {"job": [attr, depth, list(present), named, list(flips), shadow, tchain], "text": text}
+    case = {"job": [attr, depth, list(present), named, list(flips), shadow, tchain, list(items)], "text": text}
     flat = F.flatten(lib, target)
     exp = flatobs.expected(flat)
-    group = (attr, depth, present, named, shadow, tchain)
+    group = (attr, depth, present, named, shadow, tchain, items)
     try:
         obs = flatobs.normalise_obs(flatobs.observe(text, target))
     except Exception as e:
         return {"outcome": "rejected", "exc": common.exc_sig(e), "viol": [], "text": text, "group": group}
     viol = []
     names = level_names(depth)
-    winner = next((lv for lv in reversed(names) if lv in present and not (attr == "value" and lv == "T")), "none")
+    if items:
+        what = "levels %s modify %s" % (list(present), list(items))
+        suffix = ":" + "-inside-".join(item_kind(it) for it in items)
+    else:
+        winner = next((lv for lv in reversed(names) if lv in present and not (attr == "value" and lv == "T")), "none")
+        what = "modified %s, levels present %s, expected winner %s" % (attr, list(present), winner)
+        suffix = ""
     sk = spelling_kind(job)
     for clause, detail in flatobs.compare(exp, obs):
-        sig = "%s:%s:%s" % (clause, attr if clause.startswith("attribute") or clause == "equations" else "-", sk)
-        viol.append((sig, "%s\n(modified %s, levels present %s, expected winner %s%s)\n%s" % (detail, attr, list(present), winner, ", expression q at level %s" % named if named else "", text), case))
+        if items:
+            sig = "%s:%s%s" % (clause, sk, suffix)
+        else:
+            sig = "%s:%s:%s" % (clause, attr if clause.startswith("attribute") or clause == "equations" else "-", sk)
+        viol.append((sig, "%s\n(%s%s)\n%s" % (detail, what, ", expression q at level %s" % named if named else "", text), case))
     return {"outcome": "accepted", "viol": viol, "text": text, "group": group, "canon": repr(sorted((k, sorted(v["attrs"].items()), sorted(v["prefixes"])) for k, v in obs["vars"].items())) + repr(sorted(obs["eqs"]))}
 
 
 def run(ctx):
-    jobs = programs(ctx.tier)
+    single = programs(ctx.tier)
+    multi = multi_programs(ctx.tier)
+    joint = joint_programs(ctx.tier)
+    jobs = single + multi + joint
     if ctx.seed:
         r = ctx.seed % len(jobs)
         jobs = jobs[r:] + jobs[:r]
@@ -241,6 +453,7 @@ def run(ctx):
     groups = {}
     texts = set()
     competing = 0
+    multi_accepted = 0
     rej = {}
     for job, r in zip(jobs, res):
         texts.add(r["text"])
@@ -250,31 +463,47 @@ def run(ctx):
         else:
             accepted += 1
             groups.setdefault(r["group"], set()).add(r["canon"])
-            if len(job[2]) >= 2:
+            its = job[7] if len(job) > 7 else ()
+            if (sum(len(parts(it)) for it in its) if its else len(job[2])) >= 2:
                 competing += 1
+                if its:
+                    multi_accepted += 1
         for sig, msg, case in r["viol"]:
             ctx.violation(sig, msg, case)
     # (ii) spelling groups: all accepted members flatten to one canonical model
     for g, canons in groups.items():
         if len(canons) > 1:
-            ctx.violation("spellings-differ:%s" % g[0], "accepted spellings of %r flatten to %d different models" % (g, len(canons)), {"group": [g[0], g[1], list(g[2]), g[3], g[4], g[5]]})
+            ctx.violation("spellings-differ:%s" % g[0], "accepted spellings of %r flatten to %d different models" % (g, len(canons)), {"group": [g[0], g[1], list(g[2]), g[3], g[4], g[5], list(g[6])]})
     for k in (0, len(jobs) // 2, len(jobs) - 1):
         ctx.sample({"job": jobs[k], "text": res[k]["text"], "outcome": res[k]["outcome"]})
     ctx.coverage.update(
         {
             "evaluations": len(jobs),
+            "single_item_programs": len(single),
+            "several_item_programs": len(multi),
+            "joint_item_programs": len(joint),
             "distinct_nontrivial": competing,
+            "several_items_accepted": multi_accepted,
             "distinct_texts": len(texts),
             "accepted": accepted,
             "rejected": rejected,
             "rejected_by": rej,
             "spelling_groups": len(groups),
             "exhaustive": True,
-            "rule": "7 modified items (parameter value; start, min, max, nominal, fixed, unit) x depth 1-2 (thorough 1-3) x every "
-            "subset of <= 3 (thorough: all) of the modification levels T, D, W*, E, C, O x the expression q (resolved in the scope "
+            "rule": "Single item: 7 modified items (parameter value; start, min, max, nominal, fixed, unit) x depth 1-2 (thorough 1-3) x every "
+            "subset of <= 3 (thorough: all) of the modification levels T, D, W*, E0, E, C, O x the expression q (resolved in the scope "
             "where written) at one present level or nowhere x every spelling of the links of one level (thorough: of two levels) "
-            "with the others in the default a.x(start = v) / a.x = v style. Non-trivial = accepted by pymoca with >= 2 competing "
-            "levels present. A rejected (raising) program is not judged, as the statement allows.",
+            "with the others in the default a.x(start = v) / a.x = v style. Several items: every pair of levels (inner, outer) x "
+            "ordered pairs of different items (quick: every pair with the value on one side, each attribute with its cyclic "
+            "successor, the value / start of x with the value / start of a sibling element y outside; thorough: all 42 pairs of items of x, all 49 "
+            "(item of x, item of y) and 7 (item of y, same item of x)), one item per level; quick: the program with literals in "
+            "default spelling and each single deviation (q at one level; the attribute link of one level spelled the other way); "
+            "thorough: q at one level or nowhere x every spelling of the links of <= 2 levels, and every triple of levels (depth "
+            "1-2) with every assignment of two items of x that uses both. Joint: one level carries two items of x at once (as one "
+            "node x(a = .., b = ..) or two arguments), pairs as above without the sibling, expressions q where possible, default "
+            "spelling and both attribute links dotted (thorough: all pairs, q or literals, every spelling of its links, and a second "
+            "level carrying one of the two items). Non-trivial = accepted by pymoca with >= 2 modifications (level, item) "
+            "present. A rejected (raising) program is not judged, as the statement allows.",
         }
     )
     ctx.assumptions.append("rejection (any exception from flatten) is accepted for every spelling; the counts are reported")
@@ -283,10 +512,7 @@ def run(ctx):
 def replay(case):
     if "job" not in case:
         return True
-    a, d, p, n, f = case["job"][:5]
-    sh = case["job"][5] if len(case["job"]) > 5 else False
-    tc = case["job"][6] if len(case["job"]) > 6 else False
-    r = check((a, d, tuple(p), n, tuple(f), sh, tc))
+    r = check(unpack(case["job"]))
     print(r["text"])
     print(r["outcome"], [m.split("\n")[0] for _, m, _ in r["viol"]] or "ok")
     return not r["viol"]
